@@ -80,6 +80,11 @@ CHECKS = {
          "Histories are explored, not exhausted: for each (dataset, seed) the full analysis (brew with a LinearSVC model, assign_confidence with qvality PEPs, optionally protein level from a generated FASTA) is executed twice in one process, in fresh interpreters with different hash seeds and worker counts, and with the returned fold models fed back in every order (quick: 3 orders); TLC accepts a group iff all sessions have identical sha256 digests of score bytes, coefficients, fold membership, every result file and the FASTA maps (as sets), and re-feeding reproduces the first run's scores bit for bit.",
          "Trusted: TLC, sha256 digests computed by the worker. Domain: FASTA with decoys.",
          "DESIGN.md §3 C08"),
+ "C04": ("other",
+         "TLC model checking of the finite-sample FDR-control theorem (FdrControl.tla) + TLC trace validation of its premises on the real code (FlipTrace.tla label-flip pairs; C01/C02/C03 acceptors) + TLC-decided bound (FdrTrace.tla) on FDP counts from simulated data run through the real brew + assign_confidence",
+         "An expectation over a distribution cannot be model-checked. Exact part: for every weak order of n <= 5 (6 thorough) PSMs, every set of correct targets and alpha in {1/2..1/10}, the FDP averaged over all labellings of the null PSMs is <= alpha with the +1 and TLC finds the counterexample without it. Binding: held-out outputs of the real brew() do not change when the label of a held-out PSM is flipped, for a memorising estimator (FlipTrace), plus the C01/C02/C03 checks. Exploration: replicates of simulated mixtures (n = 1500-2500, pi0 0.5/0.8, folds 2..5, learners memoriser / fully grown tree / SVM / logistic regression) at PSM and peptide level; TLC rejects only mean FDP > 1.5 alpha + 4 SE and the same exploration with deliberately leaky training sets must be rejected (else machinery failure).",
+         "Trusted: TLC, simulated ground truth, integer per-mille arithmetic; the expectation is explored, not proved, for the real code.",
+         "DESIGN.md §3 C04"),
 }
 PENDING = {}   # id -> reason (not_applicable)
 
